@@ -33,7 +33,15 @@ impl Assignments {
     pub fn is_predicate_falsified(&self, predicate: Predicate) -> (r: bool) ensures r == root_falsified(self.state@, predicate) { unimplemented!() }
 }
 pub struct PropagatorStore { pub x: u8 }
-pub struct ProofLog { pub x: u8 }
+// the proof log, as far as this unit goes: how many empty nogoods have been written, and whether it has been concluded
+pub struct ProofLog { pub empties: Ghost<nat>, pub concluded: Ghost<bool> }
+pub struct VariableNames { pub x: u8 }
+impl ProofLog {
+    #[verifier::external_body]
+    pub fn log_learned_clause<const N: usize>(&mut self, literals: [Predicate; N], variable_names: &VariableNames) -> (r: Result<u64, ()>)
+        ensures final(self).concluded == old(self).concluded, final(self).empties@ == old(self).empties@ + (if N == 0 { 1nat } else { 0nat })
+    { unimplemented!() }
+}
 pub struct ReasonStore { pub x: u8 }
 pub struct StepIds { pub x: u8 }
 pub struct InternalParameters { pub proof_log: ProofLog }
@@ -56,6 +64,7 @@ pub struct ConstraintSatisfactionSolver {
     pub internal_parameters: InternalParameters,
     pub unit_nogood_step_ids: StepIds,
     pub reason_store: ReasonStore,
+    pub variable_names: VariableNames,
     pub level: usize,
     // ghost: everything posted so far
     pub model: Ghost<Model>,
@@ -80,9 +89,17 @@ impl ConstraintSatisfactionSolver {
                 forall|a: Asg| #![trigger (final(self).model@)(a)] (final(self).model@)(a) <==> ((old(self).model@)(a) && !seq_holds(nogood@, a)),
                 r is Err ==> forall|a: Asg| #![trigger (final(self).model@)(a)] !(final(self).model@)(a),
                 r is Ok ==> final(self).inv(),
+                // complete_proof: the conflict is finalised and the empty nogood written; the proof is not concluded
+                final(self).internal_parameters.proof_log.concluded == old(self).internal_parameters.proof_log.concluded,
+                r is Err ==> final(self).internal_parameters.proof_log.empties@ == old(self).internal_parameters.proof_log.empties@ + 1,
+                r is Ok ==> final(self).internal_parameters.proof_log.empties == old(self).internal_parameters.proof_log.empties,
     { unimplemented!() }
     #[verifier::external_body]
-    pub fn conclude_proof_unsat(&mut self) -> (r: Result<(), ()>) ensures *final(self) == *old(self) { unimplemented!() }
+    pub fn conclude_proof_unsat(&mut self) -> (r: Result<(), ()>)
+        ensures final(self).state == old(self).state, final(self).assignments == old(self).assignments, final(self).model == old(self).model, final(self).level == old(self).level,
+                final(self).propagators == old(self).propagators, final(self).unit_nogood_step_ids == old(self).unit_nogood_step_ids, final(self).reason_store == old(self).reason_store, final(self).variable_names == old(self).variable_names,
+                final(self).internal_parameters.proof_log.empties == old(self).internal_parameters.proof_log.empties, final(self).internal_parameters.proof_log.concluded@,
+    { unimplemented!() }
 //@@EXTRACT csp@@
 }
 } // verus!
